@@ -418,3 +418,126 @@ func DisplacementOracle() clustermc.Oracle {
 		return out
 	}
 }
+
+// MultiPendingPreemptOracle extends C05 (ii) to snapshots with several pending workloads of the
+// unobstructed class. It judges the END of the cycle only, so that competition between the pending
+// workloads cannot make it demand more than the statement: if a pending workload is still unplaced
+// while a strictly lower-priority preemptible workload of its own queue is still running (not
+// evicted by anybody during the cycle), the preempt action - which runs after allocate and reclaim -
+// had a victim for it and did not use it.
+func MultiPendingPreemptOracle() clustermc.Oracle {
+	return func(t *clustermc.Transition) []engine.Violation {
+		if len(t.Cfg.Faults) > 0 || t.Res.Panic != "" || len(t.Path) > 0 {
+			return nil
+		}
+		jobs := Jobs(t.Pre)
+		qs := Queues(t.Pre)
+		var pending []*JobRef
+		names := []string{}
+		for n := range jobs {
+			names = append(names, n)
+		}
+		sort.Strings(names)
+		for _, n := range names {
+			j := jobs[n]
+			if len(j.Pods) != 1 {
+				return nil
+			}
+			p := j.Pods[0]
+			r := ReqOf(p)
+			if r.WholeGPU != 1 || r.Sharing() {
+				return nil
+			}
+			if p.Status.Phase == corev1.PodPending && p.Spec.NodeName == "" {
+				pending = append(pending, j)
+			} else if p.DeletionTimestamp != nil || !ActiveAllocated(t.Pre, p) {
+				return nil
+			}
+		}
+		if len(pending) < 2 {
+			return nil
+		}
+		for _, f := range buildFree(t, "none") {
+			if f.gpus > 0 {
+				return nil
+			}
+		}
+		// end-of-cycle allocation per queue (GPUs), evicted and placed sets
+		alloc := map[string]float64{}
+		allocNP := map[string]float64{}
+		charge := func(j *JobRef, sign float64) {
+			for _, a := range Ancestors(qs, j.Queue) {
+				alloc[a] += sign
+				if !j.Preemptible {
+					allocNP[a] += sign
+				}
+			}
+		}
+		isPending := map[string]bool{}
+		for _, j := range pending {
+			isPending[j.Name] = true
+		}
+		for _, n := range names {
+			if !isPending[n] {
+				charge(jobs[n], 1)
+			}
+		}
+		evicted, placed := map[string]bool{}, map[string]bool{}
+		for _, d := range t.Res.Decisions {
+			j := jobs[d.Group]
+			if j == nil || d.Failed {
+				continue
+			}
+			switch d.Kind {
+			case "evict":
+				if !evicted[j.Name] && (placed[j.Name] || !isPending[j.Name]) {
+					evicted[j.Name] = true
+					placed[j.Name] = false
+					charge(j, -1)
+				}
+			case "bind", "pipeline":
+				if !placed[j.Name] && (isPending[j.Name] || evicted[j.Name]) {
+					placed[j.Name] = true
+					evicted[j.Name] = false
+					charge(j, 1)
+				}
+			}
+		}
+		var out []engine.Violation
+		for _, w := range pending {
+			obstructed := false
+			for _, a := range Ancestors(qs, w.Queue) {
+				if lim := queueLimit(qs[a], "gpu"); lim >= 0 && alloc[a]+1 > lim+1e-9 {
+					obstructed = true
+				}
+				if q := queueQuota(qs[a], "gpu"); !w.Preemptible && q >= 0 && allocNP[a]+1 > q+1e-9 {
+					obstructed = true
+				}
+			}
+			if obstructed {
+				continue
+			}
+			victim := ""
+			for _, n := range names {
+				v := jobs[n]
+				if isPending[n] || evicted[n] || !v.Preemptible || v.Queue != w.Queue || v.Priority >= w.Priority {
+					continue
+				}
+				victim = n
+				break
+			}
+			if victim == "" {
+				if placed[w.Name] {
+					t.Stats["multi_pending_placed"]++
+				}
+				continue
+			}
+			t.Stats["multi_pending_displacement_cases"]++
+			if !placed[w.Name] {
+				out = append(out, engine.Violation{Property: "C05", Key: "C05/no-preemption-of-lower-priority-same-queue pending-workloads=many",
+					Message: fmt.Sprintf("at the end of the cycle pending %s (queue %s, priority %d) is neither bound nor nominated although %s, a strictly lower-priority preemptible workload of its own queue, is still running; %d workloads were pending", w.Name, w.Queue, w.Priority, victim, len(pending))})
+			}
+		}
+		return out
+	}
+}
